@@ -557,10 +557,30 @@ func (v *FnVC) loadStruct(ref string, st *types.Struct, sname string, t types.Ty
 	return b.String()
 }
 
+// subRef: address of the struct embedded by value at field i of the object at ref.
+// References are spaced 1024 apart, so an inner address ref+offset stays inside its
+// object and is "allocated" exactly when the outer object is.
 func (v *FnVC) subRef(ref, sname string, st *types.Struct, i int) string {
-	fn := "sub." + sanitize(sname) + "." + sanitize(st.Field(i).Name())
-	v.w.needSub(fn)
-	return fmt.Sprintf("(%s %s)", fn, ref)
+	return fmt.Sprintf("(+ %s %d)", ref, slotOffset(st, i))
+}
+
+func slotSize(t types.Type) int {
+	if st, ok := t.Underlying().(*types.Struct); ok {
+		n := 1
+		for i := 0; i < st.NumFields(); i++ {
+			n += slotSize(st.Field(i).Type())
+		}
+		return n
+	}
+	return 1
+}
+
+func slotOffset(st *types.Struct, i int) int {
+	off := 1
+	for j := 0; j < i; j++ {
+		off += slotSize(st.Field(j).Type())
+	}
+	return off
 }
 
 func (v *FnVC) storeRef(ref string, st *types.Struct, sname string, i int, val string) {
@@ -645,7 +665,7 @@ func (v *FnVC) updatePath(cur string, p *Place, depth int, val string) string {
 func (v *FnVC) allocRef(prefix string) string {
 	v.ensureNextref()
 	r := v.define(prefix, "Int", v.get("nextref"))
-	v.set("nextref", "Int", fmt.Sprintf("(+ %s 1)", r))
+	v.set("nextref", "Int", fmt.Sprintf("(+ %s 1024)", r))
 	return r
 }
 
@@ -1037,6 +1057,15 @@ func (v *FnVC) enterLoop(b *ssa.BasicBlock, l *loopInfo) {
 			v.oblige("inv["+lab+"]", v.clauseLabel(cl, i, j)+"/init", t, cl.Props, true, c.String(), token.NoPos)
 		}
 	}
+	// automatic frame invariant of the loop: what the loop writes stays unchanged on
+	// entry-allocated objects outside the modifies clause
+	if !v.dry {
+		goals := v.frameGoals(sortedKeys(l.writes))
+		for _, key := range sortedKeys(goals) {
+			v.behavClause = false
+			v.oblige("inv["+lab+"]", "frame."+sanitize(key)+"/init", goals[key], nil, true, "loop frame: "+key, token.NoPos)
+		}
+	}
 	// havoc
 	preNext := v.get("nextref")
 	for _, k := range sortedKeys(l.writes) {
@@ -1056,6 +1085,12 @@ func (v *FnVC) enterLoop(b *ssa.BasicBlock, l *loopInfo) {
 				v.assume(v.rangeOf(cur, t))
 				v.assume(v.allocated(Term{cur, t}))
 			}
+		}
+	}
+	if !v.dry {
+		goals := v.frameGoals(sortedKeys(l.writes))
+		for _, key := range sortedKeys(goals) {
+			v.assume(goals[key])
 		}
 	}
 	env = v.newEnvAt(v.st, pos)
@@ -1126,6 +1161,13 @@ func (v *FnVC) backEdge(from, to *ssa.BasicBlock, edge string) {
 			t := v.specBoolE(c, env, cl)
 			v.behavClause = cl.Behav != ""
 			v.oblige("inv["+lab+"]", v.clauseLabel(cl, i, j)+suffix, t, cl.Props, true, c.String(), token.NoPos)
+		}
+	}
+	if !v.dry {
+		goals := v.frameGoals(sortedKeys(l.writes))
+		for _, key := range sortedKeys(goals) {
+			v.behavClause = false
+			v.oblige("inv["+lab+"]", "frame."+sanitize(key)+suffix, goals[key], nil, true, "loop frame: "+key, token.NoPos)
 		}
 	}
 	for i, cl := range v.loopClauses(l, "decreases") {
